@@ -114,9 +114,21 @@ def main():
     n = 1500 if thorough else 300
     cases2 = [livegen.gen_script(rng, {"restart": True, "max_len": 30}) for _ in range(n)]
     impl2, _ = livegen.run_live_family(ck, "random_histories", cases2, chk, PID)
+    # a burst (two requests outstanding at once, so two http sessions end up in the pool), a quiet spell shorter / longer than the pool's maximum
+    # session age, then a request that meets 0-6 API errors: the retry budget does not depend on how long the sessions have been idle
+    ok_ = livegen.CLEAN
+    cases3 = []
+    for quiet in (5, 70, 100, 150, 199, 250):
+        for errs in ((0, 1, 3, 4, 6) if thorough else (rng.choice([0, 1]), 3, rng.choice([4, 6]))):
+            kind, arg = rng.choice([("cancel", None), ("update", "PERSIST"), ("replace", 300)])
+            cases3.append({"strategies": 1, "steps": [["book", "OPEN"], ["place", 0, 101, "BACK", 200, 500, None, False], ["place", 0, 202, "BACK", 200, 400, None, False],
+                                                      ["call", 0, ok_], ["call", 0, ok_], ["respond", 0], ["respond", 0], ["stream", "full"], ["quiet", quiet],
+                                                      ["req", kind, 0, arg, True], ["deliver", 0, dict(ok_, errors=errs)], ["quiet", quiet], ["place", 0, 303, "BACK", 200, 300, None, False],
+                                                      ["deliver", 0, dict(ok_, errors=errs)], ["drain", [ok_]], ["stream", "full"], ["stream", "full"]]})
+    impl3, _ = livegen.run_live_family(ck, "quiet_spell_then_api_errors", cases3, chk, PID)
     # retry budget: the model of _execution_helper against the calls the exchange double received
     rows = []
-    for cases, impl in ((cases1, impl1), (cases2, impl2)):
+    for cases, impl in ((cases1, impl1), (cases2, impl2), (cases3, impl3)):
         for case, r in zip(cases, impl):
             for step, ob in zip(case["steps"], r):
                 res = ob["res"]
@@ -173,7 +185,7 @@ def main():
         if key not in seen:
             seen.add(key)
             ck.fail(key, desc, {"scenario": {k: v for k, v in mscs[i].items() if not k.startswith("_")}, "detail": det, "how": "harness/impl/simlib.py run_scenario on the real FlumineSimulation"})
-    return ck.finish("live: fault enumeration (every assignment of SUCCESS/FAILURE/TIMEOUT to packages of 1-3 orders of each kind, BetfairError on the first 0-4 attempts, cancel reports reversed/missing, an order filled at the exchange and streamed between request and response) and random histories on the real BetfairExecution handlers with an exchange double; every step compared with the Coq live model; statuses/trade status/call counts/transaction counters/attribution checked after each response.  simulated: whole-loop scenarios compared with the simulation model; no order left in a transient status, no trade Pending")
+    return ck.finish("live: fault enumeration (every assignment of SUCCESS/FAILURE/TIMEOUT to packages of 1-3 orders of each kind, BetfairError on the first 0-4 attempts, cancel reports reversed/missing, an order filled at the exchange and streamed between request and response; API errors after the session pool has been idle for 5-250 s) and random histories on the real BetfairExecution handlers with an exchange double; every step compared with the Coq live model; statuses/trade status/call counts/transaction counters/attribution checked after each response.  simulated: whole-loop scenarios compared with the simulation model; no order left in a transient status, no trade Pending")
 
 
 def replay(path):
